@@ -140,10 +140,12 @@ func (n *Nat) EuclideanDivVarTime(remainder, numerator, denominator *Nat) ct.Boo
 	nn := (*saferith.Nat)(numerator)
 	dd := saferith.ModulusFromNat((*saferith.Nat)(denominator))
 
+	// A numerator announced shorter than the denominator has a zero quotient; its capacity must not go negative.
+	qCap := max(0, numerator.AnnouncedLen()-dd.BitLen()+2)
 	var qq saferith.Nat
-	qq.Div(nn, dd, -1)
+	qq.Div(nn, dd, qCap)
 	((*saferith.Nat)(n)).SetNat(&qq)
-	((*saferith.Nat)(n)).Resize(min(numerator.AnnouncedLen(), numerator.AnnouncedLen()-dd.BitLen()+2))
+	((*saferith.Nat)(n)).Resize(min(numerator.AnnouncedLen(), qCap))
 	if remainder != nil {
 		var rr saferith.Nat
 		rr.Mul((*saferith.Nat)(denominator), &qq, -1)
